@@ -20,7 +20,8 @@ EXPECT_ENTERED = ['Server.handle', 'Server._get_message_data',
 BOUNDS = {
     'quick': 'session templates: (1) EHLO MAIL RCPT DATA <body> QUIT, (2) two '
              'transactions, (3) RSET/NOOP mix with an empty body, (4) body '
-             'over the SIZE limit; every body of b<=3 (template 2: 2) '
+             'over the SIZE limit, (5) bytes behind QUIT in the same segment, '
+             '(6) disconnect in the middle of a command line; every body of b<=3 (template 2: 2) '
              'arbitrary bytes (so '
              'dots, CR, LF, empty bodies and command look-alikes occur), '
              'stream cut at one arbitrary position between the DATA command '
@@ -53,6 +54,10 @@ def cells(tier):
             out.append({'tpl': tpl, 'b': b, 'mode': 'cuts', 'c': c})
             if b <= 2:
                 out.append({'tpl': tpl, 'b': b, 'mode': 'bytewise'})
+    for tpl in (5, 6):
+        for b in ((1,) if q else (1, 2)):
+            out.append({'tpl': tpl, 'b': b, 'mode': 'cuts', 'c': 1})
+            out.append({'tpl': tpl, 'b': b, 'mode': 'bytewise'})
     return out
 
 
@@ -88,6 +93,14 @@ def build_stream(tpl, b):
         lo = s.find(b'DATA') if isinstance(s, bytes) else 60
         lo = 62
         hi = lo + 6 + b + 3 + 5
+    elif tpl == 5:
+        # bytes behind QUIT in the same segment (never read)
+        s = pre + body + b'\r\n.\r\nNOOP\r\nQUIT\r\nXY'
+        hi = len(s)
+    elif tpl == 6:
+        # the client disconnects in the middle of a command line
+        s = pre + body + b'\r\n.\r\nNOOP\r\nRSET\r\nNO'
+        hi = len(s)
     else:
         s = pre + b'0123456' + body + b'\r\n.\r\nNOOP\r\nQUIT\r\n'
         hi = len(pre) + 7 + b + 5 + 5
